@@ -63,6 +63,7 @@ def run(chk):
                                     must_refuse = player != active or (known and not holds) or \
                                         (cls == 'ObservedPlayingPhase' and undisclosed)
                                     for p in cons:
+                                        chk.focus(p, pe)
                                         ws = p.writes()
                                         if must_refuse:
                                             why = 'out of turn' if player != active else \
@@ -120,6 +121,7 @@ def run(chk):
                               'trick_num': 2}, cardp=params[1], playerp=params[2])
             for p in paths:
                 if P.consistent(p, pe) and player != active:
+                    chk.focus(p, pe)
                     chk.require(p.end[0] == 'raise' and not p.writes(), 'C05.R1', w, q, f'base: out of turn {p.describe()[-60:]}',
                                 'out-of-turn play is refused without a write (no-hands engine)',
                                 f'no-hands engine: {player.name} plays while {active.name} is on turn and is not refused cleanly')
@@ -131,9 +133,12 @@ def run(chk):
         chk.require(False, 'C05.R4', repo.where(m, node), qual, ast.unparse(node),
                     'no code outside the play engine mutates hands or played cards',
                     f'`{ast.unparse(node)}` mutates play-engine state from outside')
+    from .common import writer_closure
     allowed = {('PlayingPhase', '__init__'), ('PlayingPhase', 'play_card'), ('PlayingPhaseWithHands', '__init__'),
                ('PlayingPhaseWithHands', 'play_card_by_player'), ('ObservedPlayingPhase', '__init__'),
                ('ObservedPlayingPhase', 'play_card_by_player'), ('ObservedPlayingPhase', 'set_dummy_hand')}
+    for cn in playing_classes:       # private helpers called only from the allowed writers write on their behalf
+        allowed |= {(cn, m) for c2, m in writer_closure(repo, list(playing_classes), {m for _, m in allowed}) if c2 == cn}
     n = 0
     for cname in playing_classes:
         ci = repo.cls(cname, 'C05.R4')
